@@ -38,7 +38,7 @@ from vf.ref import poly
 from vf.ref import thermdat as rt
 
 ID = 'C05'
-N = {'quick': 4000, 'thorough': 120000}
+N = {'quick': 4000, 'thorough': 200000}
 NT_RULE = ('one case = one thermdat file: 1-200 generated NASA-7 species (list or dict input; file or '
            'string output; read format list/tuple/dict; date or notes; optional comment block and '
            'supplementary entries) drawn per case index from a seeded PRNG after a list of directed '
@@ -47,7 +47,7 @@ NT_RULE = ('one case = one thermdat file: 1-200 generated NASA-7 species (list o
            'JSON of the file spec')
 REQUIRED_ORACLES = ['L1', 'L2', 'L3', 'L4']
 REQUIRED_CLASSES = [
-    'input:list', 'input:dict', 'read:list', 'read:tuple', 'read:dict', 'output:file', 'output:string',
+    'twins', 'input:list', 'input:dict', 'read:list', 'read:tuple', 'read:dict', 'output:file', 'output:string',
     'date:on', 'date:off', 'notes:none', 'notes:short', 'notes:long', 'notes:blank_inside', 'notes:keyword',
     'supp_data', 'supp_txt', 'supp_txt:keyword', 'supp_txt:numeric',
     'name:plain', 'name:contains_END', 'name:starts_END', 'name:contains_THERMO', 'name:starts_THERMO',
@@ -217,7 +217,7 @@ def gen_count(rng, digits):
     return rng.choice([lo, hi, rng.randint(lo, hi), rng.randint(lo, hi)])
 
 
-def gen_elements(rng, tame):
+def gen_elements(rng, allow_s2d3, allow_float):
     n = rng.choice([1, 2, 2, 3, 3, 4, 4])
     syms = set()
     out = []
@@ -229,9 +229,9 @@ def gen_elements(rng, tame):
                 syms.add(sym)
                 break
         dg = rng.choice([1, 1, 2, 2, 3])
-        if tame and sl == 2 and dg == 3:
+        if not allow_s2d3 and sl == 2 and dg == 3:
             dg = 2
-        ctype = rng.choice(['int', 'int', 'int', 'npint'] if tame else ['int', 'int', 'npint', 'float'])
+        ctype = rng.choice(['int', 'int', 'npint', 'float'] if allow_float else ['int', 'int', 'int', 'npint'])
         out.append([sym, gen_count(rng, dg), ctype])
     if rng.random() < 0.25:
         for _ in range(rng.randint(1, 2)):
@@ -304,12 +304,12 @@ def gen_notes(rng):
     return str(rng.randint(1, 99999999))
 
 
-def gen_species(rng, name, tame_comp):
+def gen_species(rng, name, allow_s2d3=False, allow_float=False):
     T = gen_T(rng)
     style = rng.choice(['realistic', 'realistic', 'wide', 'wide', 'wide', 'zeros'])
     style2 = style if style != 'zeros' else rng.choice(['wide', 'zeros'])
     return {'name': name, 'phase': rng.choice(PHASES[:4]) if rng.random() < 0.7 else rng.choice(PHASES),
-            'elements': gen_elements(rng, tame_comp), 'T_low': T[0], 'T_mid': T[1], 'T_high': T[2],
+            'elements': gen_elements(rng, allow_s2d3, allow_float), 'T_low': T[0], 'T_mid': T[1], 'T_high': T[2],
             'a_low': gen_coefs(rng, style), 'a_high': gen_coefs(rng, style2), 'notes': gen_notes(rng)}
 
 
@@ -355,7 +355,10 @@ def generate(rng, tier):
     else:
         n = rng.choice([100, 150, 199, 200, 200, rng.randint(100, 200)])
     p_kw = rng.choice([0.0, 0.0, 0.1, 0.3, 1.0])
-    tame_comp = rng.random() < 0.55
+    # two-letter symbol x three-digit count and float-typed counts are switched per file, so
+    # that an open finding on one of them cannot mask the other (or everything else)
+    allow_s2d3 = rng.random() < 0.4
+    allow_float = rng.random() < 0.45
     names, used = [], set()
     for _ in range(n):
         for attempt in range(50):
@@ -376,9 +379,21 @@ def generate(rng, tier):
             'write_date': rng.random() < 0.4,
             'supp_txt': (rng.choice(SUPP_TXT) if rng.random() < 0.3 else None),
             'supp': ([gen_supp(rng, i) for i in range(rng.randint(1, 3))] if rng.random() < 0.2 else None),
-            'species': [gen_species(rng, nm, tame_comp) for nm in names]}
+            'species': [gen_species(rng, nm, allow_s2d3, allow_float) for nm in names]}
     if spec['supp'] and rng.random() < 0.4:
         spec['supp_newline'] = False         # the writer has to terminate the block itself
+    if n < 200 and rng.random() < 0.25:
+        # twins: adjacent species that differ only in their names (isomers, the same
+        # adsorbate on two sites) must stay two species
+        i = rng.randrange(n)
+        for attempt in range(50):
+            nm = gen_name(rng, rng.choice(['plain', 'special', 'starts_digit']))[:15]
+            if _valid_name(nm) and nm not in used and not _kw(nm):
+                twin = dict(spec['species'][i], name=nm)
+                if rng.random() < 0.5:
+                    twin['phase'] = rng.choice(PHASES[:4])
+                spec['species'].insert(i + 1, twin)
+                break
     return spec
 
 
@@ -468,16 +483,20 @@ def directed(tier):
     # 27-28 200 species
     rng = random.Random('C05:directed:200')
     names = ['SP%d%s' % (i, rng.choice(['', '(S)', '*', '-a'])) for i in range(200)]
-    D.append(F([gen_species(rng, nm, True) for nm in names], write_date=True))
-    D.append(F([gen_species(rng, nm, True) for nm in names], input='dict', read_format='dict', output='string'))
-    # 29 mid-sized file, every benign name class
+    D.append(F([gen_species(rng, nm) for nm in names], write_date=True))
+    D.append(F([gen_species(rng, nm) for nm in names], input='dict', read_format='dict', output='string'))
+    # isomers / same adsorbate on two sites: identical except for the name
+    C4 = S('n-C4H10', [('C', 4), ('H', 10)])
+    D.append(F([C4, dict(C4, name='i-C4H10'), dict(C4, name='C4H10(S)', phase='S'), dict(C4, name='C4H10(T)', phase='S'),
+                CH4, dict(CH4, name='CH4')][:5]))
+    # 30 mid-sized file, every benign name class
     rng = random.Random('C05:directed:40')
     names = []
     while len(names) < 40:
         nm = gen_name(rng, BENIGN_CLASSES[len(names) % len(BENIGN_CLASSES)])[:15]
         if _valid_name(nm) and nm not in names and not _kw(nm):
             names.append(nm)
-    D.append(F([gen_species(rng, nm, True) for nm in names], read_format='tuple',
+    D.append(F([gen_species(rng, nm) for nm in names], read_format='tuple',
                supp=[dict(gen_supp(rng, 0))], supp_txt='! forty species'))
     D[-1]['supp_newline'] = False
     return D
@@ -614,7 +633,7 @@ def _roundtrip(sps, write_date, tmp, supp=None, supp_txt=None):
 
 
 def _anchor(sp):
-    return dict(sp, name='A0', elements=[['H', 1, 'int']], notes=None)
+    return dict(sp, name='A0', elements=[['Xe', 7, 'int']], phase='G', notes=None)
 
 
 def _bad(sp, wd, tmp, symptom):
@@ -689,6 +708,9 @@ class _Diag:
             self._file[symptom] = diagnose_file(self.spec, self.tmp, symptom)
         return self._file[symptom]
 
+    def n_species_diagnosed(self):
+        return len(self._sp)
+
     def species(self, i, symptom='silent'):
         if (i, symptom) not in self._sp:
             self._sp[(i, symptom)] = diagnose_species(self.spec['species'][i], self.spec['write_date'],
@@ -716,6 +738,9 @@ def _classes(spec, ctx):
             if len(body) == 3 and all(_is_numeric(b) for b in body):
                 ctx.cls('supp_txt:numeric')
     nt = False
+    for a, b in zip(sps, sps[1:]):
+        if all(a[k] == b[k] for k in ('elements', 'T_low', 'T_mid', 'T_high', 'a_low', 'a_high')):
+            ctx.cls('twins')
     for sp in sps:
         ncs = name_classes(sp['name'])
         for c in ncs:
@@ -860,6 +885,9 @@ def check_readback_species(ctx, r, exp, sp, part, diag, idx):
     if r.name != exp['name']:
         mech = dict(base, what='name')
         if sp is not None:
+            if diag.n_species_diagnosed() >= 3:      # this file is already reported three times
+                ctx.extra['name_mismatches_not_diagnosed'] = ctx.extra.get('name_mismatches_not_diagnosed', 0) + 1
+                return False
             mech.update(diag.species(idx))
         ctx.fail('L2', mech, got=r.name, want=exp['name'], index=idx)
         return False
@@ -870,8 +898,8 @@ def check_readback_species(ctx, r, exp, sp, part, diag, idx):
         got_el = {k: v for k, v in dict(r.elements).items()}
     except Exception:
         got_el = r.elements
-    same = got_el == exp['elements'] and all(isinstance(v, int) and not isinstance(v, bool)
-                                             for v in got_el.values())
+    same = isinstance(got_el, dict) and got_el == exp['elements'] and not any(
+        isinstance(v, bool) for v in got_el.values())
     if not same:
         mech = dict(base, what='elements')
         if sp is not None and isinstance(got_el, dict):
@@ -1087,6 +1115,7 @@ def run_case(spec, ctx):
     dropped = [nm for nm in want_names if cnt_got.get(nm, 0) < cnt_want[nm]]
     dupl = [nm for nm in cnt_got if cnt_got[nm] > cnt_want.get(nm, 0)]
     conserved = (len(vals) == len(expected)) and not dropped and not dupl
+    cons_feat = {}
     if conserved:
         ctx.held('L4')
     else:
@@ -1094,13 +1123,14 @@ def run_case(spec, ctx):
         if dropped and dropped[0] in [s['name'] for s in sps]:
             culprit = [s['name'] for s in sps].index(dropped[0])
         feat = diag.species(culprit) if culprit is not None else diag.file('silent')
+        cons_feat = feat
         what = 'dropped' if dropped else 'duplicated' if dupl else 'count'
         ctx.fail('L4', dict({'what': what}, **feat), returned=len(vals), entries_in_file=len(P.entries),
                  dropped=dropped[:5], duplicated=dupl[:5], got_names=got_names[:8], want_names=want_names[:8])
     # ---- PRB: line classification of the reader versus lines written ------------------------
     if aligned:
         def feat():
-            return {} if conserved else diag.file('silent')
+            return cons_feat
         for k in (1, 2, 3, 4):
             lab = '_read_line%d' % k
             if _present(lab):
